@@ -77,6 +77,8 @@ def conformance_cases():
     C.append(("pub struct: module reachable from outside", "", "pub", date, "VIS", "ok"))
     C.append(("pub(crate) struct: module reachable inside the crate", "", "pub(crate)", date, "VIS", "ok"))
     C.append(("private struct: module private", "", "", date, "VIS", "error"))
+    C.append(("pub(in path) struct: module visible in that path", "", "pub(in crate)", date, "VIS", "ok"))
+    C.append(("pub(super) struct: module visible in the parent", "", "pub(super)", date, "VIS", "ok"))
     # all options at once, reversed order, mixed literal styles
     C.append(("all keys, reversed order, mixed literals",
               'normalization = r"rust", deprecated = "allow", skip_serializing_none, fragments_other_variant = r#"true"#, extern_enums("Role"), '
@@ -162,7 +164,7 @@ def run(tier):
         "rule": "state = attribute token stream: every subset of the 8 optional keys x 4 orders x 4 string-literal styles (plain, "
                 "all-escaped, raw, raw#) x {', ' / ',\\n' + trailing comma}; every permutation of every subset of <= %d optional keys "
                 "with the two paths; every value of every key's domain (valid, case variants, invalid, empty) alone in 4 literal "
-                "styles and in pairs; 5 x 4 surrounding attribute sets x 4 struct visibilities x 2 manifest-relative directories. "
+                "styles and in pairs; 5 x 4 surrounding attribute sets x 7 struct visibilities (incl. pub(in path)) x 2 manifest-relative directories. "
                 "transition = real option builder vs table, compared through the generator's token stream. non-trivial = distinct "
                 "observed token streams. Conformance = real derive expansions judged by what compiles / warns" % (2 if tier == "quick" else 3),
         "in_crate_arrangements": summary["cases"], "distinct_observations": summary["distinct_observations"],
